@@ -184,7 +184,7 @@ def repo_state():
             return subprocess.run(['git', '-C', REPO] + list(a), capture_output=True, text=True).stdout.strip()
         except Exception:
             return ''
-    return {'head': git('rev-parse', 'HEAD'), 'dirty_files': [l[3:] for l in git('status', '--porcelain').splitlines()][:50]}
+    return {'head': git('rev-parse', 'HEAD'), 'dirty_files': [l.split(None, 1)[-1] for l in git('status', '--porcelain').splitlines() if l.strip()][:50]}
 
 
 def probe_hits(pr):
@@ -268,13 +268,14 @@ def check_property(pid, tier, seed, replay_only=None):
             if not ur2.gen_error and not ur2.res.fatal:
                 runs[u] = ur2
 
-    cur_loop_sig, cur_callees = {}, {}
+    cur_loop_sig, cur_callees, cur_asserts = {}, {}, {}
     for u in units:
         ur = runs.get(u)
         if ur is not None and ur.unit is not None:
             for em in ur.unit.items:
                 cur_loop_sig[(u, em.name)] = em.loop_sig
                 cur_callees[(u, em.name)] = em.callees
+                cur_asserts[(u, em.name)] = em.src_asserts
     functions, obligations, discharged = [], 0, 0
     failures, trusted, rules_applied, samples = [], [], {}, []
     solver_ms, verus_version, checker_cmds = 0, '', []
@@ -452,7 +453,7 @@ def check_property(pid, tier, seed, replay_only=None):
                                  'obligation': 'kani::%s' % h.name, 'src': h.target, 'rendered': pr['playback'] or plog[-3000:],
                                  'playback': pr['playback'], 'kani': True, 'replayed_on_real_code': pr['replayed'], 'replay_log': pr['replay_log']})
     # ---------------------------------------------------------------- verdict
-    violations, new_unproved = [], []
+    violations, new_unproved, overridden = [], [], []
     kf = known_findings(pid)
     kf_printed = []
     for f in failures:
@@ -465,22 +466,54 @@ def check_property(pid, tier, seed, replay_only=None):
         if k:
             kf_printed.append((k[0], f))
             continue
+        # a COMPLETE Kani proof (loop-free harness over the full input domain) of the same function's contract that succeeds on
+        # this tree decides the contract; a Verus failure there is a proof-maintenance matter, not a violation
+        comp = [k for k in kani_results if k.get('companion_of') == f['function'] and k['kind'] == 'complete']
+        if not f.get('kani') and comp and all(k['status'] == 'SUCCESS' for k in comp):
+            msg = ('%s: Verus could not re-prove %s, but the complete Kani proof of the same contract (%s) succeeds on this tree: '
+                   'the contract holds, the Verus annotations need maintenance' % (f['function'], f['obligation'], ', '.join(k['harness'] for k in comp)))
+            if msg not in overridden:
+                overridden.append(msg)
+            continue
         # annotation-fit test: loop invariants and hints are proof artifacts written for the loops of the baselined function.
         # If the function's loop headers differ from the baseline's (re-indexed range, different iterable, loop added or
         # removed), a failing obligation inside it only says that the annotations no longer fit - undecided, not a violation.
         bsig = bu.get('functions', {}).get(f['function'], {}).get('loop_sig')
         csig = cur_loop_sig.get((f['unit'], f['function']))
-        if in_base and not f.get('kani') and bsig is not None and csig is not None and bsig != csig:
+        same_fn = [g for g in failures if g['function'] == f['function'] and g['unit'] == f['unit']]
+        # inductiveness failures (the invariant is not preserved by the new loop body) mean the annotations do not fit the new loop;
+        # a postcondition that fails while every invariant is still inductive means the (still fitting) loops no longer establish
+        # the contract - that is how an off-by-one in a loop bound shows up
+        ind_fail = any(re.search(r'invariant not satisfied at end of loop body|^loop invariant not satisfied|decreases not satisfied', g['message'])
+                       for g in same_fn)
+        post_fail = any(g['message'].startswith('postcondition not satisfied') for g in same_fn)
+        if in_base and not f.get('kani') and bsig is not None and csig is not None and bsig != csig and ind_fail:
             msg = ('%s: the loop structure of the function changed (baseline %r, now %r); its loop annotations can no longer be '
                    'trusted to fit, so its failed obligations decide nothing' % (f['function'], bsig, csig))
             if msg not in undecided:
                 undecided.append(msg)
             continue
+        # a NEW runtime assertion (debug_assert added by the change) that cannot be proved is not a violation of anything the
+        # baseline established
+        bas = bu.get('functions', {}).get(f['function'], {}).get('asserts')
+        cas = cur_asserts.get((f['unit'], f['function']))
+        if in_base and not f.get('kani') and bas is not None and cas is not None and f['message'] == 'assertion failed' \
+                and re.search(r'let __a\d+ = ', f['clause']) and set(cas) - set(bas):
+            msg = ('%s: the function has a runtime assertion its baselined version did not have (%s); an unproved new assertion decides nothing'
+                   % (f['function'], '; '.join(sorted(set(cas) - set(bas)))[:160]))
+            if msg not in undecided:
+                undecided.append(msg)
+            continue
         bcal = bu.get('functions', {}).get(f['function'], {}).get('callees')
         ccal = cur_callees.get((f['unit'], f['function']))
-        if in_base and not f.get('kani') and bcal is not None and ccal is not None and set(ccal) - set(bcal):
+        # names of functions that are under (non-assumed) contract in the DB are not suspicious: their contract is proved text
+        strong = set(n.split('::')[-1] for n, sp in specs.items() if not getattr(sp, 'assumed', None))
+        # iterator adaptors are consumed by the rewrite rules R1/R2/R7/R14 themselves (they become loop bounds), not called
+        adaptors = set(['iter', 'iter_mut', 'take', 'skip', 'enumerate', 'rev', 'zip', 'len'])
+        newcal = set(c for c in (set(ccal or []) - set(bcal or [])) if c.split('::')[-1] not in strong and c not in adaptors)
+        if in_base and not f.get('kani') and bcal is not None and ccal is not None and newcal:
             msg = ('%s: the function now calls %s, which its baselined version did not; the contracts assumed for callees were chosen for the '
-                   'baselined calls, so its failed obligations decide nothing' % (f['function'], ', '.join(sorted(set(ccal) - set(bcal)))[:200]))
+                   'baselined calls, so its failed obligations decide nothing' % (f['function'], ', '.join(sorted(newcal))[:200]))
             if msg not in undecided:
                 undecided.append(msg)
             continue
@@ -550,6 +583,7 @@ def check_property(pid, tier, seed, replay_only=None):
         'bounded': [k for k in kani_results if k['kind'] == 'bounded'],
         'failed_obligations': [{k: f[k] for k in ('obligation', 'function', 'message', 'clause', 'src')} for f in failures][:20],
         'undecided': undecided[:20],
+        'verus_failures_overridden_by_complete_kani_proofs': overridden,
         'known_findings_reported': [k[0]['line'] for k in kf_printed],
         'explanation': cfg.get('explanation', ''),
         'not_decided_here': cfg.get('not_decided', []),
@@ -569,6 +603,8 @@ def check_property(pid, tier, seed, replay_only=None):
         if k['line'] not in seen:
             seen.add(k['line'])
             print('KNOWN-FINDING: property=%s %s' % (pid, k['line'].split(' ', 2)[2] if k['line'].count(' ') >= 2 else k['line']))
+    for o in overridden:
+        print('NOTE: %s' % o)
     for u in undecided:
         print('UNDECIDED: %s' % u)
     for v, rp in zip(violations, replay_paths):
@@ -608,7 +644,7 @@ def rebaseline():
         fns = {}
         for em in ur.unit.items:
             if em.mode == 'verify' and em.name not in failed:
-                fns[em.name] = {'loops': em.n_loops, 'clauses': len(em.clauses) + 1, 'loop_sig': em.loop_sig, 'callees': em.callees, 'sha': em.sha}
+                fns[em.name] = {'loops': em.n_loops, 'clauses': len(em.clauses) + 1, 'loop_sig': em.loop_sig, 'callees': em.callees, 'asserts': em.src_asserts, 'sha': em.sha}
         lemmas = sorted(set(k.split('::')[-1] for k, v in ur.res.functions.items() if v['success'] and k.split('::')[-1] not in failed))
         tp = run_unit(u, specs, outdir, 'tail')
         tail = sorted(probe_hits(tp)) if (tp.res is not None and not tp.gen_error and not tp.res.fatal) else []
